@@ -168,6 +168,19 @@ var props = []*prop{
 		Thorough:    budget{Shards: 14, Checks: 400000, TimeoutS: 3000},
 	},
 	{
+		ID: "C15", Pkg: "c15", Level: "exploration",
+		Technique:   "property-based testing (rapid) of generated sequential histories and barrier-released concurrent workloads against Go's regexp package, under the Go race detector, with a cache-content invariant read through the verif hook",
+		LevelText:   "Per case a set of valid and invalid patterns (shared prefixes, flag/anchor variants), used through validate.Pattern, schema pattern and patternProperties, either in a generated sequential order or from 1..64 goroutines released together; every use must behave like regexp.Compile+MatchString of that very pattern, invalid patterns must be reported as invalid, and after the case the cache must map every key to its own expression, contain every valid pattern used and no invalid one. Half of the shards run under -race.",
+		LevelNote:   "Schedules are sampled, not enumerated (Go scheduler is not controlled); amplifiers: race detector (happens-before), barriers so that first-time compilations collide, cache invariant. 'Every valid pattern used is cached' is an internal strengthening used to expose lost updates. Trusted: regexp, the race detector, the hook snapshot.",
+		Assumptions: trusted,
+		Builds: []buildVariant{
+			{Name: "race", Tags: []string{"verif"}, Race: true, ShardShare: 0.5, ChecksScale: 0.1},
+			{Name: "plain", Tags: []string{"verif"}, ShardShare: 0.5},
+		},
+		Quick:    budget{Shards: 14, Checks: 4000, TimeoutS: 400},
+		Thorough: budget{Shards: 14, Checks: 80000, TimeoutS: 3000},
+	},
+	{
 		ID: "C16", Pkg: "c16", Level: "exploration",
 		Technique:   "property-based differential testing (rapid) of parameter/header/items validators against an independent simple-schema evaluator over typed Go values",
 		LevelText:   "Generated simple-schema definitions (type, format, enum, numeric, string, array constraints, items nested to depth 4) x typed Go values of matching and non-matching kinds; valid <=> the independent evaluator says the value has the declared type and meets every constraint at every items level; nil is not validated.",
